@@ -499,4 +499,4 @@ LEVEL_NOTE = "under construction"
 EXPLANATION = "under construction"
 ASSUMPTIONS = []
 TRUSTED = []
-BOUNDED = []
+BOUNDED = [{"name": "mode-flags-vs-os-oracle-and-nested-configs", "script": "bounded/b19_paths.py"}]
